@@ -44,6 +44,8 @@ Definition cs_transmit (s : cs) : bool * cs :=
 
 Definition nx (l : list Z) : Z * list Z := match l with [] => (0%Z, []) | x :: t => (x, t) end.
 
+(* the driver gives the sender an opportunity to send after every event, as the connection's event
+   loop does: a timeout, a received datagram, an explicit opportunity; and once right after close() *)
 Fixpoint run_ops (fuel : nat) (rtt now : N) (s : cs) (ops : list Z) : list Z :=
   match fuel with
   | O => []
@@ -53,37 +55,57 @@ Fixpoint run_ops (fuel : nat) (rtt now : N) (s : cs) (ops : list Z) : list Z :=
       | 1%Z :: r =>
           let '(a, r) := nx r in
           let now' := now + zN a mod 10000 in
-          let '(b, s') := cs_timeout s now' in
-          [1%Z; bz b] ++ run_ops fuel rtt now' s' r
-      | 2%Z :: r => 2%Z :: run_ops fuel rtt now (cs_datagram s rtt now) r
+          let '(b, s1) := cs_timeout s now' in
+          let '(t, s2) := cs_transmit s1 in
+          [1%Z; bz b; bz t] ++ run_ops fuel rtt now' s2 r
+      | 2%Z :: r =>
+          let '(t, s2) := cs_transmit (cs_datagram s rtt now) in
+          [2%Z; bz t] ++ run_ops fuel rtt now s2 r
       | 3%Z :: r =>
-          let '(b, s') := cs_transmit s in
-          [3%Z; bz b] ++ run_ops fuel rtt now s' r
+          let '(t, s2) := cs_transmit s in
+          [3%Z; bz t] ++ run_ops fuel rtt now s2 r
       | _ => []
       end
   end.
 
 Definition run (case : list Z) : list Z :=
   let '(a, r) := nx case in let '(b, r) := nx r in let '(_, r) := nx r in
-  run_ops (length r) (zN b mod 5000) 0 (cs_close (zN a mod 100000)) r.
+  let '(t, s0) := cs_transmit (cs_close (zN a mod 100000)) in
+  [9%Z; bz t] ++ run_ops (length r) (zN b mod 5000) 0 s0 r.
 
-(* C12, close: everything sent after CONNECTION_CLOSE is a copy of the close packet (code 1, never 2)
-   and the number of copies sent so far never exceeds 1 + the number of datagrams received so far
-   (one for entering the closing state, the others only in response to incoming packets) *)
-Fixpoint walk (fuel : nat) (sent recv : N) (ops out : list Z) : bool :=
+(* C12, close: everything sent after CONNECTION_CLOSE is a copy of the close packet (flag 1, never 2),
+   and every copy after the first is sent in response to an incoming packet: at least one datagram
+   was received since the previous copy (recomputed from the operations alone).
+   monitor: sent = a copy was sent before, fresh = a datagram was received since the last copy *)
+Definition copy_ok (sent fresh : bool) (v : Z) : option (bool * bool) :=
+  match v with
+  | 0%Z => Some (sent, fresh)
+  | 1%Z => if negb sent || fresh then Some (true, false) else None
+  | _ => None
+  end.
+
+Fixpoint walk (fuel : nat) (sent fresh : bool) (ops out : list Z) : bool :=
   match fuel with
   | O => true
   | S fuel =>
       match ops with
       | [] => true
       | 1%Z :: r => let '(_, r) := nx r in
-          match out with 1%Z :: _ :: o => walk fuel sent recv r o | _ => false end
+          match out with
+          | 1%Z :: _ :: v :: o =>
+              match copy_ok sent fresh v with Some (s', f') => walk fuel s' f' r o | None => false end
+          | _ => false
+          end
       | 2%Z :: r =>
-          match out with 2%Z :: o => walk fuel sent (recv + 1) r o | _ => false end
+          match out with
+          | 2%Z :: v :: o =>
+              match copy_ok sent true v with Some (s', f') => walk fuel s' f' r o | None => false end
+          | _ => false
+          end
       | 3%Z :: r =>
           match out with
-          | 3%Z :: 0%Z :: o => walk fuel sent recv r o
-          | 3%Z :: 1%Z :: o => (sent + 1 <=? 1 + recv) && walk fuel (sent + 1) recv r o
+          | 3%Z :: v :: o =>
+              match copy_ok sent fresh v with Some (s', f') => walk fuel s' f' r o | None => false end
           | _ => false
           end
       | _ => true
@@ -92,4 +114,8 @@ Fixpoint walk (fuel : nat) (sent recv : N) (ops out : list Z) : bool :=
 
 Definition judge (case out : list Z) : bool :=
   let '(_, r) := nx case in let '(_, r) := nx r in let '(_, r) := nx r in
-  walk (length r) 0 0 r out.
+  match out with
+  | 9%Z :: v :: o =>
+      match copy_ok false false v with Some (s', f') => walk (length r) s' f' r o | None => false end
+  | _ => false
+  end.
